@@ -29,6 +29,7 @@ class DiffuseGeom:
             self.u = None
             arg = I.input("numtrajs", kind="int")
         self.n_arg = arg
+        self.first_throw_node = len(I.g.nodes)       # everything the constructor computed has a smaller id
         self.throw = I.run_method(self.obj, "throw", [arg], st=self.st)
         self.mc = None
 
